@@ -3,4 +3,5 @@ import Cell2v.Props.C09
 import Cell2v.Props.C09Ring
 import Cell2v.Props.C09Mpsc
 import Cell2v.Props.C09Sched
+import Cell2v.Props.C09X
 #audit_ns Cell2v.Props.C09
